@@ -3,61 +3,17 @@ package c04
 import (
 	"encoding/json"
 	"fmt"
+	"reflect"
 	"testing"
 	"time"
 
 	"verif/harness/ev"
 	"verif/harness/gen"
 	"verif/harness/spec"
-	"verif/harness/units"
 	"verif/harness/val"
 )
 
-// gridSpecs is a fixed set of small schemas covering every type kind (and the main variants of each).
-func gridSpecs() []*spec.Spec {
-	p := func(x int64) *int64 { return &x }
-	secs := units.BuiltinDef("seconds")
-	bytes := units.BuiltinDef("bytes")
-	str := &spec.Spec{Kind: spec.KString}
-	integer := &spec.Spec{Kind: spec.KInt}
-	anyT := &spec.Spec{Kind: spec.KAny}
-	objMap := &spec.Spec{Kind: spec.KObject, ID: "O", Props: []spec.Prop{
-		{Name: "a", Type: anyT}, {Name: "p0", Type: integer, Required: true}, {Name: "p1", Type: str, Default: spec.P(`"d"`)}, {Name: "k", Type: &spec.Spec{Kind: spec.KList, Items: anyT}}}}
-	leafProps := []spec.Prop{{Name: "a", Type: anyT}, {Name: "i", Type: integer}, {Name: "s", Type: str}, {Name: "pi", Type: integer}, {Name: "li", Type: &spec.Spec{Kind: spec.KList, Items: integer}},
-		{Name: "mo", Type: &spec.Spec{Kind: spec.KMap, Keys: str, Values: anyT}}}
-	memA := &spec.Spec{Kind: spec.KObject, ID: "A", Props: []spec.Prop{{Name: "a", Type: anyT}, {Name: "p0", Type: integer}}}
-	memB := &spec.Spec{Kind: spec.KObject, ID: "B", Props: []spec.Prop{{Name: "a", Type: str}}}
-	altA := &spec.Spec{Kind: spec.KObject, ID: "AltA", Struct: "AltA", Props: []spec.Prop{{Name: "a", Type: integer}, {Name: "k", Type: str}}}
-	altB := &spec.Spec{Kind: spec.KObject, ID: "AltB", Struct: "*AltB", Props: []spec.Prop{{Name: "b", Type: str}, {Name: "k", Type: str}}}
-	node := &spec.Spec{Kind: spec.KObject, ID: "Node", Props: []spec.Prop{{Name: "v", Type: integer}, {Name: "next", Type: &spec.Spec{Kind: spec.KRef, RefID: "Node"}},
-		{Name: "kids", Type: &spec.Spec{Kind: spec.KList, Items: &spec.Spec{Kind: spec.KRef, RefID: "Node"}}}, {Name: "a", Type: anyT}}}
-	return []*spec.Spec{
-		integer,
-		{Kind: spec.KInt, Min: p(0), Max: p(100), Units: &secs},
-		{Kind: spec.KFloat},
-		{Kind: spec.KFloat, FMin: spec.P(0.0), Units: &bytes},
-		str,
-		{Kind: spec.KString, Min: p(1), Max: p(3), Pattern: spec.P("^[a-z0-9]+$")},
-		{Kind: spec.KBool},
-		{Kind: spec.KPattern},
-		{Kind: spec.KEnumS, Enum: []spec.EnumVal{{S: "a"}, {S: "1"}, {S: ""}}},
-		{Kind: spec.KEnumI, Enum: []spec.EnumVal{{I: 0}, {I: 1}, {I: 60}}, Units: &secs},
-		{Kind: spec.KTypedEnumS, Enum: []spec.EnumVal{{S: "a"}, {S: "b"}}},
-		{Kind: spec.KList, Items: anyT},
-		{Kind: spec.KList, Items: integer, Min: p(1), Max: p(2)},
-		{Kind: spec.KMap, Keys: str, Values: anyT},
-		{Kind: spec.KMap, Keys: integer, Values: str, Min: p(1)},
-		{Kind: spec.KMap, Keys: &spec.Spec{Kind: spec.KEnumS, Enum: []spec.EnumVal{{S: "a"}, {S: "p0"}}}, Values: &spec.Spec{Kind: spec.KList, Items: anyT}},
-		anyT,
-		objMap,
-		{Kind: spec.KObject, ID: "L", Struct: "*Leaf", Props: leafProps},
-		{Kind: spec.KObject, ID: "L", Struct: "Leaf", Props: leafProps},
-		{Kind: spec.KOneOfS, Discriminator: "_type", Members: []spec.Member{{KeyS: "a", Type: memA}, {KeyS: "1", Type: memB}}},
-		{Kind: spec.KOneOfS, Discriminator: "k", Inlined: true, Members: []spec.Member{{KeyS: "a", Type: altA}, {KeyS: "b", Type: altB}}},
-		{Kind: spec.KOneOfI, Discriminator: "_type", Members: []spec.Member{{KeyI: 1, Type: memA}, {KeyI: 2, Type: memB}}},
-		{Kind: spec.KScope, Root: "Node", Objects: []*spec.Spec{node}},
-	}
-}
+func gridSpecs() []*spec.Spec { return gen.GridSpecs() }
 
 type placement struct {
 	name   string
@@ -91,6 +47,7 @@ type batchResult struct {
 	Frame   string `json:"frame,omitempty"`
 	Values  int    `json:"values"`
 	Errors  int    `json:"errors"`
+	Skips   int    `json:"skips"`
 	Skipped string `json:"skipped,omitempty"`
 }
 
@@ -174,4 +131,152 @@ func TestGrid(t *testing.T) {
 		}
 	}
 	ev.Exhaustive(fmt.Sprintf("grid: %d decoder-domain values (unserialize, data-mode compatibility) and %d native values (validate, serialize) x %d schemas covering every type kind x %d placements (root, list item, map value, property, property of a one-of member)", len(decoder), len(native), len(specs), len(places)))
+}
+
+// damageSpecs: struct-mapped objects (pointer and value forms, nested) with a valid raw value each. Properties mapped
+// to fields that cannot express absence are required or marked treat-empty-as-default (the documented precondition).
+func damageSpecs() []struct {
+	s   *spec.Spec
+	raw val.V
+} {
+	p := func(x int64) *int64 { return &x }
+	str, integer, anyT := &spec.Spec{Kind: spec.KString}, &spec.Spec{Kind: spec.KInt}, &spec.Spec{Kind: spec.KAny}
+	leafProps := func() []spec.Prop {
+		return []spec.Prop{
+			{Name: "a", Type: &spec.Spec{Kind: spec.KString, Max: p(5)}, EmptyIsDefault: true},
+			{Name: "i", Type: integer, EmptyIsDefault: true},
+			{Name: "s", Type: str, EmptyIsDefault: true},
+			{Name: "pi", Type: &spec.Spec{Kind: spec.KInt, Min: p(0)}},
+			{Name: "ps", Type: str},
+			{Name: "b", Type: &spec.Spec{Kind: spec.KBool}, Required: true},
+			{Name: "f", Type: &spec.Spec{Kind: spec.KFloat}, Required: true},
+			{Name: "pf", Type: &spec.Spec{Kind: spec.KFloat}},
+			{Name: "li", Type: &spec.Spec{Kind: spec.KList, Items: integer}, EmptyIsDefault: true},
+			{Name: "ls", Type: &spec.Spec{Kind: spec.KList, Items: str}},
+			{Name: "msi", Type: &spec.Spec{Kind: spec.KMap, Keys: str, Values: integer}},
+			{Name: "mis", Type: &spec.Spec{Kind: spec.KMap, Keys: integer, Values: str}},
+			{Name: "mo", Type: &spec.Spec{Kind: spec.KMap, Keys: str, Values: anyT}, EmptyIsDefault: true},
+			{Name: "re", Type: &spec.Spec{Kind: spec.KPattern}},
+			{Name: "ms", Type: &spec.Spec{Kind: spec.KTypedEnumS, Enum: []spec.EnumVal{{S: "a"}, {S: "b"}}}, Required: true},
+		}
+	}
+	kv := func(k string, v val.V) val.KV { return val.KV{K: val.Str(k), V: v} }
+	leafRaw := val.V{T: "map[string]any", M: []val.KV{
+		kv("a", val.Str("x")), kv("i", val.Int("int64", 1)), kv("s", val.Str("s")), kv("pi", val.Int("int64", 2)), kv("ps", val.Str("p")), kv("b", val.Bool(true)),
+		kv("f", val.Float("float64", 1.5)), kv("pf", val.Float("float64", 2.5)), kv("li", val.V{T: "[]any", L: []val.V{val.Int("int64", 1), val.Int("int64", 2)}}),
+		kv("ls", val.V{T: "[]any", L: []val.V{val.Str("x")}}), kv("msi", val.V{T: "map[string]any", M: []val.KV{kv("k", val.Int("int64", 1))}}),
+		kv("mis", val.V{T: "map[any]any", M: []val.KV{{K: val.Int("int64", 1), V: val.Str("v")}}}),
+		kv("mo", val.V{T: "map[string]any", M: []val.KV{kv("k", val.V{T: "[]any", L: []val.V{val.Int("int64", 1)}})}}),
+		kv("re", val.Str("^a$")), kv("ms", val.Str("a")),
+	}}
+	leafP := &spec.Spec{Kind: spec.KObject, ID: "L", Struct: "*Leaf", Props: leafProps()}
+	leafV := &spec.Spec{Kind: spec.KObject, ID: "L", Struct: "Leaf", Props: leafProps()}
+	small := func(strct string) *spec.Spec {
+		return &spec.Spec{Kind: spec.KObject, ID: "SL", Struct: strct, Props: []spec.Prop{{Name: "i", Type: integer, Required: true}, {Name: "ps", Type: str}, {Name: "a", Type: integer, EmptyIsDefault: true}}}
+	}
+	smallRaw := val.V{T: "map[string]any", M: []val.KV{kv("i", val.Int("int64", 1)), kv("ps", val.Str("p")), kv("a", val.Int("int64", 3))}}
+	mid := &spec.Spec{Kind: spec.KObject, ID: "M", Struct: "*Mid", Props: []spec.Prop{
+		{Name: "x", Type: integer, Required: true},
+		{Name: "px", Type: str},
+		{Name: "l", Type: small("Leaf"), Required: true},
+		{Name: "plf", Type: small("*Leaf")},
+		{Name: "ll", Type: &spec.Spec{Kind: spec.KList, Items: small("Leaf")}},
+		{Name: "ml", Type: &spec.Spec{Kind: spec.KMap, Keys: str, Values: small("Leaf")}},
+		{Name: "o", Type: anyT},
+		{Name: "lo", Type: &spec.Spec{Kind: spec.KList, Items: anyT}},
+	}}
+	midRaw := val.V{T: "map[string]any", M: []val.KV{kv("x", val.Int("int64", 1)), kv("px", val.Str("p")), kv("l", smallRaw), kv("plf", smallRaw),
+		kv("ll", val.V{T: "[]any", L: []val.V{smallRaw}}), kv("ml", val.V{T: "map[string]any", M: []val.KV{kv("k", smallRaw)}}),
+		kv("o", val.V{T: "map[string]any", M: []val.KV{kv("k", val.Int("int64", 1))}}), kv("lo", val.V{T: "[]any", L: []val.V{val.Str("x")}})}}
+	oneOf := &spec.Spec{Kind: spec.KOneOfS, Discriminator: "k", Inlined: true, Members: []spec.Member{
+		{KeyS: "a", Type: &spec.Spec{Kind: spec.KObject, ID: "AltA", Struct: "AltA", Props: []spec.Prop{{Name: "a", Type: integer, Required: true}, {Name: "pa", Type: integer}, {Name: "k", Type: str, Required: true}}}},
+		{KeyS: "", Type: &spec.Spec{Kind: spec.KObject, ID: "AltB", Struct: "*AltB", Props: []spec.Prop{{Name: "b", Type: str, EmptyIsDefault: true}, {Name: "pb", Type: str}, {Name: "k", Type: str, EmptyIsDefault: true}}}},
+	}}
+	oneOfRaw := val.V{T: "map[string]any", M: []val.KV{kv("k", val.Str("a")), kv("a", val.Int("int64", 1)), kv("pa", val.Int("int64", 2))}}
+	return []struct {
+		s   *spec.Spec
+		raw val.V
+	}{{leafP, leafRaw}, {leafV, leafRaw}, {mid, midRaw}, {oneOf, oneOfRaw},
+		{&spec.Spec{Kind: spec.KList, Items: leafV}, val.V{T: "[]any", L: []val.V{leafRaw}}}}
+}
+
+// TestDamageGrid: for each struct-mapped schema, the native value obtained from a valid input is damaged at EVERY
+// settable location (every field, pointer, slice element, interface) with EVERY native catalogue value that fits the
+// location's static type (anything fits an interface-typed field), plus zeroing; Validate and Serialize must then
+// return a value or an error. This is the grid counterpart of the randomly placed damage in TestTotality.
+func TestDamageGrid(t *testing.T) {
+	if ev.Replaying() {
+		t.Skip()
+	}
+	w := worker()
+	defer func() {
+		w.Close()
+		theWorker = nil
+	}()
+	cat := gen.Catalogue(true)
+	idx := 0
+	for si, ds := range damageSpecs() {
+		sch, err := spec.Build(ds.s)
+		if err != nil {
+			t.Fatalf("harness bug: damage grid schema %d does not build: %v", si, err)
+		}
+		native, err := sch.Unserialize(ds.raw.Go())
+		if err != nil {
+			t.Fatalf("harness bug: damage grid base value %d is not accepted: %v", si, err)
+		}
+		holder := reflect.New(reflect.TypeOf(native))
+		holder.Elem().Set(reflect.ValueOf(val.DeepCopy(native)))
+		var locs []reflect.Value
+		locations(holder.Elem(), &locs, 0)
+		for li := range locs {
+			for _, op := range []string{"validate", "serialize"} {
+				idx++
+				if !ev.Mine(idx) {
+					continue
+				}
+				ds2 := []Damage{{Loc: li, Action: "zero", Exact: true}}
+				for _, x := range cat {
+					ds2 = append(ds2, Damage{Loc: li, Action: "foreign", With: x, Exact: true})
+				}
+				c := Case{Spec: ds.s, Op: op, Value: ds.raw, BatchDamage: ds2, PosKind: fmt.Sprintf("native_location_%d(%s)", li, locs[li].Type())}
+				body, crash := w.Do(c, 60*time.Second)
+				bad, msg := -1, ""
+				applied := 0
+				if crash != nil {
+					for i := range ds2 {
+						one := Case{Spec: ds.s, Op: op, Value: ds.raw, Damage: &ds2[i], PosKind: c.PosKind}
+						if m, _ := judge(w, one); m != "" {
+							bad, msg = i, m
+							break
+						}
+					}
+					if bad < 0 {
+						ev.Class("damage_grid_unreproduced_batch_crash", 1)
+					}
+				} else {
+					var r batchResult
+					if err := json.Unmarshal(body, &r); err != nil {
+						t.Fatalf("harness: bad worker answer: %v", err)
+					}
+					if r.Skipped != "" {
+						t.Fatalf("harness bug: damage batch skipped: %s", r.Skipped)
+					}
+					applied = r.Values - r.Skips
+					if r.Index >= 0 {
+						bad = r.Index
+						msg = fmt.Sprintf("operation panicked: %s\n at %s\n%s(native value damaged at location %d (%s) with %s)\nschema: %s", r.Text, r.Frame, op, li, locs[li].Type(), ds2[bad].With, specJSON(ds.s))
+					}
+					ev.Class("damage_grid_applied", int64(applied))
+					ev.Class("damage_grid_misfit_skipped", int64(r.Skips))
+				}
+				for i := 0; i < applied; i++ {
+					ev.Case(ev.FP("damage", si, li, op, i), true, "class:damage_grid", "op:"+op, "cell:native_location/"+op)
+				}
+				if bad >= 0 {
+					ev.Fail(t, "op", Case{Spec: ds.s, Op: op, Value: ds.raw, Damage: &ds2[bad], PosKind: c.PosKind}, "%s", msg)
+				}
+			}
+		}
+	}
+	ev.Exhaustive("damage grid: every settable location of the native values of 5 struct-mapped schemas x {zeroed, every native catalogue value that fits the location} x {Validate, Serialize}")
 }
